@@ -103,7 +103,7 @@ HAWK_INLINE pair_t* hawk_htb_allocpair (hawk_htb_t* htb, void* kptr, hawk_oow_t 
 	else
 	{
 		VPTR(n) = vcop (htb, vptr, vlen);
-		if (VPTR(n) != HAWK_NULL)
+		if (VPTR(n) == HAWK_NULL)
 		{
 			if (htb->style->freeer[HAWK_HTB_KEY] != HAWK_NULL)
 				htb->style->freeer[HAWK_HTB_KEY] (htb, KPTR(n), KLEN(n));
